@@ -81,6 +81,7 @@ class Tokens:
 
     def __init__(self):
         self.map = {}
+        self.initial_keys = set()     # upper-cased header keywords the run's table was created with (see snapshot_table)
 
     def tok(self, digest):
         return self.map.setdefault(digest, len(self.map) + 1)
@@ -145,8 +146,13 @@ def is_config_key(k):
 
 
 def snapshot_table(t, toks):
+    """projection of a table / file for the trace: columns and the header keywords ADDED BY THE STAGES.  The header the table is
+    created with (results_table.init: start time, flattened configuration, any provenance cards) is not stage output: its keys
+    (toks.initial_keys, recorded when the run's table is created) are left to C16, which decides what the header must contain."""
     cols = list(t.colnames)
-    meta_keys = [k for k in t.meta.keys() if not is_config_key(k) and k not in ("simTime", "SIMTIME", "EXTNAME", "comments")]
+    initial = getattr(toks, "initial_keys", ())
+    meta_keys = [k for k in t.meta.keys() if not is_config_key(k) and k not in ("simTime", "SIMTIME", "EXTNAME", "comments")
+                 and str(k).upper() not in initial]
     return {
         "present": True,
         "cols": cols,
@@ -206,7 +212,7 @@ def install_table(events, toks, out_path, fault, sink=None):
     class MetaDict(dict):
         def __setitem__(self, key, value):
             if (id(self) == primary.get("meta") and not getattr(self, "_quiet", False) and not is_config_key(key)
-                    and key != "simTime" and not str(key).startswith("__")):
+                    and key != "simTime" and not str(key).startswith("__") and str(key).upper() not in toks.initial_keys):
                 before_mutation("meta", [str(key)], 0, [meta_proj(value, toks)])
             dict.__setitem__(self, key, value)
 
@@ -239,6 +245,7 @@ def install_table(events, toks, out_path, fault, sink=None):
 
     def init(config=None):
         t = orig_init(config)
+        toks.initial_keys = {str(k).upper() for k in t.meta.keys()}
         v = VTable(t, copy=False)
         md = MetaDict()
         md._quiet = True
